@@ -3,6 +3,7 @@ package main
 // Solver portfolio: z3-new (5.1.0) first, then cvc5 and z3 4.8.12 raced on anything not decided.
 
 import (
+	"syscall"
 	"runtime"
 	"bytes"
 	"context"
@@ -59,16 +60,28 @@ func runSolver(ctx context.Context, s Solver, file string, timeout int) (string,
 	if ctx.Err() != nil {
 		return "cancelled", "", 0
 	}
-	args := s.Args(file, timeout)
-	cctx, cancel := context.WithTimeout(ctx, time.Duration(timeout+2)*time.Second)
+	// the budget is CPU time (ulimit -t), so that a loaded machine does not turn decided queries into timeouts; the
+	// solver's own (wall-clock) limit and the context are only a backstop at four times the budget
+	wall := 4*timeout + 4
+	args := s.Args(file, wall)
+	cctx, cancel := context.WithTimeout(ctx, time.Duration(wall+2)*time.Second)
 	defer cancel()
-	cmd := exec.CommandContext(cctx, args[0], args[1:]...)
+	shArgs := append([]string{"-c", fmt.Sprintf("ulimit -t %d; exec \"$0\" \"$@\"", timeout+1)}, args...)
+	cmd := exec.CommandContext(cctx, "sh", shArgs...)
 	var out bytes.Buffer
 	cmd.Stdout = &out
 	cmd.Stderr = &out
 	t0 := time.Now()
 	_ = cmd.Run()
 	el := time.Since(t0).Seconds()
+	if ps := cmd.ProcessState; ps != nil {
+		if cpu := (ps.UserTime() + ps.SystemTime()).Seconds(); cpu > 0 {
+			el = cpu
+		}
+		if ws, ok := ps.Sys().(syscall.WaitStatus); ok && ws.Signaled() && cctx.Err() == nil && ctx.Err() == nil {
+			return "timeout", out.String(), el // CPU limit reached (SIGXCPU / SIGKILL)
+		}
+	}
 	o := out.String()
 	first := strings.TrimSpace(strings.SplitN(o, "\n", 2)[0])
 	switch first {
